@@ -109,7 +109,9 @@ package lua
 // [base, top). The representation invariants of all tables/metatables (TabsOK) are system invariants: every mutator is
 // proved to preserve them (C09), so they are assumed to hold whenever control returns from Lua code.
 //@ define HostFrameKept(ls *LState) bool = top(ls) == old(top(ls)) && base(ls) == old(base(ls)) && (forall k int :: old(base(ls)) <= k && k < old(top(ls)) ==> ls.reg.array[k] == old(ls.reg.array[k])) && (old(Inv_gfn(ls)) ==> Inv_gfn(ls)) && (old(Inv_api(ls)) ==> Inv_api(ls)) && ls.currentFrame == old(ls.currentFrame) && (old(ls.currentFrame != nil && ls.currentFrame.Fn != nil) ==> ls.currentFrame.Fn != nil) && ls.G == old(ls.G) && ls.G.Registry == old(ls.G.Registry) && ls.G.Global == old(ls.G.Global) && MaxArrayIndex == old(MaxArrayIndex)
-//@ define HostKept(ls *LState) bool = HostFrameKept(ls) && (ls.G != nil ==> TabsOK(ls)) && (old(regsValid(ls)) ==> regsValid(ls)) && (forall k int :: base(ls) <= k && k < top(ls) ==> valOK(ls.reg.array[k])) && (forall t *LTable :: t != nil ==> arrid(t.array) != arrid(ls.reg.array) && arrid(t.keys) != arrid(ls.reg.array))
+// HashOK: every table's hash part satisfies its representation invariant (system invariant: every mutator preserves it, C09)
+//@ define HashOK() bool = forall t *LTable :: t != nil ==> Inv_hash(t)
+//@ define HostKept(ls *LState) bool = HashOK() && HostFrameKept(ls) && (ls.G != nil ==> TabsOK(ls)) && (old(regsValid(ls)) ==> regsValid(ls)) && (forall k int :: base(ls) <= k && k < top(ls) ==> valOK(ls.reg.array[k])) && (forall t *LTable :: t != nil ==> arrid(t.array) != arrid(ls.reg.array) && arrid(t.keys) != arrid(ls.reg.array))
 
 // getFieldString: getField for a string key (t.name, globals): verified against the same "index" event clauses. What it
 // promises about the HOST activation and the system invariants after a handler ran (HostKept, valOK of the result) is
@@ -127,14 +129,37 @@ package lua
 //@ modifies everything
 //@ loop 1 invariant 0 <= i && valOK(curobj) && (i == 0 ==> curobj == obj) && ncalls() == old(ncalls())
 //@ loop 1 invariant i > 0 ==> old((!isTab(obj) || sget(tab(obj), key) == LNil) && mtEvent(ls, obj, "__index") != LNil && !isFn(mtEvent(ls, obj, "__index")))
-//@ trusted (*LState).setField [C01 C04 C07 C10]
+// "newindex" event (manual §2.8): a raw store happens when the object is a table that already HAS the key (raw value not nil),
+// or when there is no __newindex handler; a function handler is called once with (handler's object, key, value) and nothing
+// is stored; a table handler is the next object of the chain. The stored VALUE plays no role in the choice (assigning nil
+// to an absent key still consults the handler).
+//@ func (*LState).setFieldString [C01 C04 C07 C10 C20]
 //@ logged
-//@ ensures  Disc(ls)
+// (the table/metatable representation invariants are system invariants: assumed on entry, not demanded from callers)
+//@ entry-assumes IdxOK(ls) && HashOK() && valOK(obj) && value != nil
+//@ raises when true
+//@ ensures  "discipline": Disc(ls)
+//@ ensures  "raw-store-when-present": old(isTab(obj) && sget(tab(obj), key) != LNil) ==> ncalls() == old(ncalls()) && sget(old(tab(obj)), key) == value
+//@ ensures  "raw-store-without-handler": old(isTab(obj) && sget(tab(obj), key) == LNil && mtEvent(ls, obj, "__newindex") == LNil) ==> ncalls() == old(ncalls()) && sget(old(tab(obj)), key) == value
+//@ ensures  "function-handler": old((!isTab(obj) || sget(tab(obj), key) == LNil) && isFn(mtEvent(ls, obj, "__newindex"))) ==> ncalls() == old(ncalls()) + 1 && callfn(old(ncalls())) == fnid("(*LState).Call") && callargLV(old(ncalls()), 10) == old(mtEvent(ls, obj, "__newindex")) && callargLV(old(ncalls()), 11) == obj && callargLV(old(ncalls()), 12) == mkStr(key) && callargLV(old(ncalls()), 13) == value && callargInt(old(ncalls()), 1) == 3 && callargInt(old(ncalls()), 2) == 0
+//@ ensures  "at-most-one-call": ncalls() <= old(ncalls()) + 1
+//@ assumes  HostKept(ls)
 //@ modifies everything
-//@ trusted (*LState).setFieldString [C01 C04 C07 C10 C20]
+//@ loop 1 invariant 0 <= i && valOK(curobj) && (i == 0 ==> curobj == obj) && ncalls() == old(ncalls()) && IdxOK(ls) && HashOK() && Disc(ls)
+//@ loop 1 invariant i > 0 ==> old((!isTab(obj) || sget(tab(obj), key) == LNil) && mtEvent(ls, obj, "__newindex") != LNil && !isFn(mtEvent(ls, obj, "__newindex")))
+
+//@ func (*LState).setField [C01 C04 C07 C10]
 //@ logged
-//@ ensures  Disc(ls) && HostKept(ls)
+//@ entry-assumes IdxOK(ls) && HashOK() && Inv_gfn(ls) && valOK(obj) && valOK(key) && value != nil && (forall t *LTable :: t != nil ==> Inv_arr(t))
+//@ raises when true
+//@ ensures  "discipline": Disc(ls)
+//@ ensures  "raw-store-when-present": old(isTab(obj) && view(tab(obj), key) != LNil) ==> callfn(old(ncalls())) == fnid("(*LState).RawSet") && ncalls() == old(ncalls()) + 1 && callargInt(old(ncalls()), 1) == old(tab(obj)) && callargLV(old(ncalls()), 2) == key && callargLV(old(ncalls()), 3) == value
+//@ ensures  "raw-store-without-handler": old(isTab(obj) && view(tab(obj), key) == LNil && mtEvent(ls, obj, "__newindex") == LNil) ==> callfn(old(ncalls())) == fnid("(*LState).RawSet") && ncalls() == old(ncalls()) + 1 && callargInt(old(ncalls()), 1) == old(tab(obj)) && callargLV(old(ncalls()), 2) == key && callargLV(old(ncalls()), 3) == value
+//@ ensures  "function-handler": old((!isTab(obj) || view(tab(obj), key) == LNil) && isFn(mtEvent(ls, obj, "__newindex"))) ==> ncalls() == old(ncalls()) + 1 && callfn(old(ncalls())) == fnid("(*LState).Call") && callargLV(old(ncalls()), 10) == old(mtEvent(ls, obj, "__newindex")) && callargLV(old(ncalls()), 11) == obj && callargLV(old(ncalls()), 12) == key && callargLV(old(ncalls()), 13) == value && callargInt(old(ncalls()), 1) == 3 && callargInt(old(ncalls()), 2) == 0
+//@ ensures  "at-most-one-action": ncalls() <= old(ncalls()) + 1
 //@ modifies everything
+//@ loop 1 invariant 0 <= i && valOK(curobj) && (i == 0 ==> curobj == obj) && ncalls() == old(ncalls()) && IdxOK(ls) && HashOK() && Inv_gfn(ls) && (forall t *LTable :: t != nil ==> Inv_arr(t)) && Disc(ls)
+//@ loop 1 invariant i > 0 ==> old((!isTab(obj) || view(tab(obj), key) == LNil) && mtEvent(ls, obj, "__newindex") != LNil && !isFn(mtEvent(ls, obj, "__newindex")))
 
 // ---------------------------------------------------------------------------
 // arithmetic events (manual §2.8, "add" event and friends):
